@@ -16,7 +16,7 @@
    of a session reads a request, the reader sees EOF) and [AStep t pick] = thread t performs
    its next atomic step.  A step that is not enabled leaves the state unchanged.
    No proofs in this file. *)
-From Coq Require Import List NArith Bool.
+From Coq Require Import List NArith ZArith Bool.
 Import ListNotations.
 
 Module CM.
@@ -40,8 +40,9 @@ End AMap.
 
 (* ---- proxies ---- *)
 Inductive pstatus := PRunning | PClosed.
-Record proxy := mkP { p_owner : N; p_name : N; p_att : N; p_status : pstatus }.
-Definition p_close (p : proxy) : proxy := mkP (p_owner p) (p_name p) (p_att p) PClosed.
+(* p_ports = pxy.GetUsedPortsNum(): 1 for tcp/udp, 0 for the other types *)
+Record proxy := mkP { p_owner : N; p_name : N; p_att : N; p_ports : Z; p_status : pstatus }.
+Definition p_close (p : proxy) : proxy := mkP (p_owner p) (p_name p) (p_att p) (p_ports p) PClosed.
 
 (* ---- program counters ---- *)
 (* RegisterControl goroutine of a session *)
@@ -55,8 +56,8 @@ Inductive lpc :=
 Inductive spc :=
 | SNone                                   (* Start has not run *)
 | SIdle                                   (* readLoop blocked in ReadMsg *)
-| SExist (name att : N) (runok : bool)    (* RegisterProxy: before pxyManager.Exist *)
-| SRun (name att : N) (runok : bool)      (* before pxy.Run() *)
+| SExist (name att : N) (np : Z) (runok : bool)  (* RegisterProxy: quota taken, before pxyManager.Exist *)
+| SRun (name att : N) (np : Z) (runok : bool)    (* before pxy.Run() *)
 | SAddP (name pid : N)                    (* before pxyManager.Add *)
 | SRollback (name pid : N)                (* Add failed: deferred pxy.Close() pending *)
 | SStore (name pid : N)                   (* Add succeeded: ctl.proxies[name] = pxy pending *)
@@ -77,22 +78,25 @@ Record session := mkS {
   s_pool_open : bool;         (* workConnCh not closed *)
   s_done : bool;              (* doneCh closed *)
   s_seq : N;                  (* ghost: position of this session's Add in the order of all Adds *)
+  s_ports : Z;                (* ctl.portsUsedNum (signed, as in Go) *)
   s_lpc : lpc;
   s_spc : spc;
   s_dpc : dpc
 }.
 
-Definition with_runid x v := mkS (s_rid x) v (s_closed x) (s_proxies x) (s_pool_open x) (s_done x) (s_seq x) (s_lpc x) (s_spc x) (s_dpc x).
-Definition with_closed x v := mkS (s_rid x) (s_runid x) v (s_proxies x) (s_pool_open x) (s_done x) (s_seq x) (s_lpc x) (s_spc x) (s_dpc x).
-Definition with_proxies x v := mkS (s_rid x) (s_runid x) (s_closed x) v (s_pool_open x) (s_done x) (s_seq x) (s_lpc x) (s_spc x) (s_dpc x).
-Definition with_pool x v := mkS (s_rid x) (s_runid x) (s_closed x) (s_proxies x) v (s_done x) (s_seq x) (s_lpc x) (s_spc x) (s_dpc x).
-Definition with_done x v := mkS (s_rid x) (s_runid x) (s_closed x) (s_proxies x) (s_pool_open x) v (s_seq x) (s_lpc x) (s_spc x) (s_dpc x).
-Definition with_seq x v := mkS (s_rid x) (s_runid x) (s_closed x) (s_proxies x) (s_pool_open x) (s_done x) v (s_lpc x) (s_spc x) (s_dpc x).
-Definition with_lpc x v := mkS (s_rid x) (s_runid x) (s_closed x) (s_proxies x) (s_pool_open x) (s_done x) (s_seq x) v (s_spc x) (s_dpc x).
-Definition with_spc x v := mkS (s_rid x) (s_runid x) (s_closed x) (s_proxies x) (s_pool_open x) (s_done x) (s_seq x) (s_lpc x) v (s_dpc x).
-Definition with_dpc x v := mkS (s_rid x) (s_runid x) (s_closed x) (s_proxies x) (s_pool_open x) (s_done x) (s_seq x) (s_lpc x) (s_spc x) v.
+Definition with_runid x v := mkS (s_rid x) v (s_closed x) (s_proxies x) (s_pool_open x) (s_done x) (s_seq x) (s_ports x) (s_lpc x) (s_spc x) (s_dpc x).
+Definition with_closed x v := mkS (s_rid x) (s_runid x) v (s_proxies x) (s_pool_open x) (s_done x) (s_seq x) (s_ports x) (s_lpc x) (s_spc x) (s_dpc x).
+Definition with_proxies x v := mkS (s_rid x) (s_runid x) (s_closed x) v (s_pool_open x) (s_done x) (s_seq x) (s_ports x) (s_lpc x) (s_spc x) (s_dpc x).
+Definition with_pool x v := mkS (s_rid x) (s_runid x) (s_closed x) (s_proxies x) v (s_done x) (s_seq x) (s_ports x) (s_lpc x) (s_spc x) (s_dpc x).
+Definition with_done x v := mkS (s_rid x) (s_runid x) (s_closed x) (s_proxies x) (s_pool_open x) v (s_seq x) (s_ports x) (s_lpc x) (s_spc x) (s_dpc x).
+Definition with_seq x v := mkS (s_rid x) (s_runid x) (s_closed x) (s_proxies x) (s_pool_open x) (s_done x) v (s_ports x) (s_lpc x) (s_spc x) (s_dpc x).
+Definition with_ports x v := mkS (s_rid x) (s_runid x) (s_closed x) (s_proxies x) (s_pool_open x) (s_done x) (s_seq x) v (s_lpc x) (s_spc x) (s_dpc x).
+Definition with_lpc x v := mkS (s_rid x) (s_runid x) (s_closed x) (s_proxies x) (s_pool_open x) (s_done x) (s_seq x) (s_ports x) v (s_spc x) (s_dpc x).
+Definition with_spc x v := mkS (s_rid x) (s_runid x) (s_closed x) (s_proxies x) (s_pool_open x) (s_done x) (s_seq x) (s_ports x) (s_lpc x) v (s_dpc x).
+Definition with_dpc x v := mkS (s_rid x) (s_runid x) (s_closed x) (s_proxies x) (s_pool_open x) (s_done x) (s_seq x) (s_ports x) (s_lpc x) (s_spc x) v.
 
 Record state := mkSt {
+  maxports : Z;                      (* serverCfg.MaxPortsPerClient; 0 = no limit *)
   next_sid : N;
   next_pid : N;
   addctr : N;                        (* ghost: number of Adds so far *)
@@ -102,12 +106,16 @@ Record state := mkSt {
   proxies : list (N * proxy)         (* every proxy object ever Run *)
 }.
 
-Definition init : state := mkSt 0 0 0 [] [] [] [].
+Definition init_with (m : Z) : state := mkSt m 0 0 0 [] [] [] [].
+Definition init : state := init_with 0.
 
-Definition set_sessions st v := mkSt (next_sid st) (next_pid st) (addctr st) v (ctls st) (pxys st) (proxies st).
-Definition set_ctls st v := mkSt (next_sid st) (next_pid st) (addctr st) (sessions st) v (pxys st) (proxies st).
-Definition set_pxys st v := mkSt (next_sid st) (next_pid st) (addctr st) (sessions st) (ctls st) v (proxies st).
-Definition set_proxies st v := mkSt (next_sid st) (next_pid st) (addctr st) (sessions st) (ctls st) (pxys st) v.
+Definition set_next_sid st v := mkSt (maxports st) v (next_pid st) (addctr st) (sessions st) (ctls st) (pxys st) (proxies st).
+Definition set_next_pid st v := mkSt (maxports st) (next_sid st) v (addctr st) (sessions st) (ctls st) (pxys st) (proxies st).
+Definition set_addctr st v := mkSt (maxports st) (next_sid st) (next_pid st) v (sessions st) (ctls st) (pxys st) (proxies st).
+Definition set_sessions st v := mkSt (maxports st) (next_sid st) (next_pid st) (addctr st) v (ctls st) (pxys st) (proxies st).
+Definition set_ctls st v := mkSt (maxports st) (next_sid st) (next_pid st) (addctr st) (sessions st) v (pxys st) (proxies st).
+Definition set_pxys st v := mkSt (maxports st) (next_sid st) (next_pid st) (addctr st) (sessions st) (ctls st) v (proxies st).
+Definition set_proxies st v := mkSt (maxports st) (next_sid st) (next_pid st) (addctr st) (sessions st) (ctls st) (pxys st) v.
 Definition put st (s : N) (x : session) := set_sessions st (aset s x (sessions st)).
 
 (* pxy.Close() *)
@@ -119,13 +127,13 @@ Definition close_proxy st (pid : N) : state :=
 
 (* ---- observable outputs ---- *)
 (* NewProxyResp error classes: 0 ok | 1 config rejected | 2 "already exists" (Exist) |
-   3 Run failed | 4 "already in use" (pxyManager.Add) *)
+   3 Run failed | 4 "already in use" (pxyManager.Add) | 5 "exceed the max_ports_per_client" *)
 Inductive out :=
 | OLoginResp (sid : N) (runid : option N) (delivered : bool)
 | ONewProxyResp (sid name att err : N) (delivered : bool).
 
 Inductive request :=
-| RNew (name att : N) (cfgok runok : bool)
+| RNew (name att : N) (np : Z) (cfgok runok : bool)
 | RClose (name : N).
 
 Inductive tid := TLogin (s : N) | TSess (s : N) | TLate (s : N).
@@ -149,13 +157,13 @@ Definition step_login (st : state) (n : N) (x : session) : option (state * list 
               let st1 := put st o (with_closed (with_runid y None) true) in
               let x' := with_seq (with_lpc x (LWait o)) (addctr st) in
               let st2 := set_ctls (put st1 n x') (aset r n (ctls st)) in
-              Some (mkSt (next_sid st2) (next_pid st2) (addctr st + 1) (sessions st2) (ctls st2) (pxys st2) (proxies st2), [])
+              Some (set_addctr st2 (addctr st + 1), [])
           | None => None
           end
       | None =>
           let x' := with_seq (with_lpc x LStart) (addctr st) in
           let st2 := set_ctls (put st n x') (aset r n (ctls st)) in
-          Some (mkSt (next_sid st2) (next_pid st2) (addctr st + 1) (sessions st2) (ctls st2) (pxys st2) (proxies st2), [])
+          Some (set_addctr st2 (addctr st + 1), [])
       end
   | LWait o =>
       (* oldCtl.WaitClosed(): <-doneCh *)
@@ -188,24 +196,28 @@ Definition step_late (st : state) (n : N) (x : session) : option (state * list o
 Definition resp (x : session) (s name att err : N) : list out :=
   [ONewProxyResp s name att err (negb (s_closed x))].
 
+(* the deferred  if err != nil { ctl.portsUsedNum -= pxy.GetUsedPortsNum() }  (only when a limit is configured) *)
+Definition quota_back (st : state) (x : session) (np : Z) : session :=
+  if (0 <? maxports st)%Z then with_ports x (s_ports x - np)%Z else x.
+
 Definition step_sess (st : state) (s : N) (x : session) (pick : N) : option (state * list out) :=
   match s_spc x with
   | SNone | TFinished => None
   | SIdle =>
       (* ReadMsg fails once the conn is closed (Replaced): dispatcher done, worker goes on *)
       if s_closed x then Some (put st s (with_spc x TPool), []) else None
-  | SExist name att runok =>
+  | SExist name att np runok =>
       match alookup name (pxys st) with
-      | Some _ => Some (put st s (with_spc x SIdle), resp x s name att 2)
-      | None => Some (put st s (with_spc x (SRun name att runok)), [])
+      | Some _ => Some (put st s (with_spc (quota_back st x np) SIdle), resp x s name att 2)
+      | None => Some (put st s (with_spc x (SRun name att np runok)), [])
       end
-  | SRun name att runok =>
+  | SRun name att np runok =>
       if runok then
         let pid := next_pid st in
-        let st1 := set_proxies st (aset pid (mkP s name att PRunning) (proxies st)) in
+        let st1 := set_proxies st (aset pid (mkP s name att np PRunning) (proxies st)) in
         let st2 := put st1 s (with_spc x (SAddP name pid)) in
-        Some (mkSt (next_sid st2) (pid + 1) (addctr st2) (sessions st2) (ctls st2) (pxys st2) (proxies st2), [])
-      else Some (put st s (with_spc x SIdle), resp x s name att 3)
+        Some (set_next_pid st2 (pid + 1), [])
+      else Some (put st s (with_spc (quota_back st x np) SIdle), resp x s name att 3)
   | SAddP name pid =>
       (* Manager.Add under pm.mu: fails if present *)
       match alookup name (pxys st) with
@@ -214,7 +226,8 @@ Definition step_sess (st : state) (s : N) (x : session) (pick : N) : option (sta
       end
   | SRollback name pid =>
       let att := match alookup pid (proxies st) with Some p => p_att p | None => 0 end in
-      Some (put (close_proxy st pid) s (with_spc x SIdle), resp x s name att 4)
+      let np := match alookup pid (proxies st) with Some p => p_ports p | None => 0%Z end in
+      Some (put (close_proxy st pid) s (with_spc (quota_back st x np) SIdle), resp x s name att 4)
   | SStore name pid =>
       let att := match alookup pid (proxies st) with Some p => p_att p | None => 0 end in
       Some (put st s (with_spc (with_proxies x (aset name pid (s_proxies x))) SIdle), resp x s name att 0)
@@ -243,13 +256,21 @@ Definition step_req (st : state) (s : N) (x : session) (r : request) : option (s
   | SIdle =>
       if s_closed x then None else
       match r with
-      | RNew name att cfgok runok =>
-          if cfgok then Some (put st s (with_spc x (SExist name att runok)), [])
+      | RNew name att np cfgok runok =>
+          if cfgok then
+            (* quota check and reservation under ctl.mu, only when a limit is configured *)
+            if (0 <? maxports st)%Z then
+              if (maxports st <? s_ports x + np)%Z then Some (st, resp x s name att 5)
+              else Some (put st s (with_spc (with_ports x (s_ports x + np)%Z) (SExist name att np runok)), [])
+            else Some (put st s (with_spc x (SExist name att np runok)), [])
           else Some (st, resp x s name att 1)
       | RClose name =>
           (* CloseProxy: looks only in ctl.proxies *)
           match alookup name (s_proxies x) with
-          | Some pid => Some (put (close_proxy st pid) s (with_spc x (SCDel name pid)), [])
+          | Some pid =>
+              (* if MaxPortsPerClient > 0 { portsUsedNum -= pxy.GetUsedPortsNum() } ; pxy.Close() *)
+              let np := match alookup pid (proxies st) with Some p => p_ports p | None => 0%Z end in
+              Some (put (close_proxy st pid) s (with_spc (quota_back st x np) (SCDel name pid)), [])
           | None => Some (st, [])
           end
       end
@@ -263,7 +284,7 @@ Definition step_eof (st : state) (s : N) (x : session) : option (state * list ou
   end.
 
 Definition new_session (r : N) : session :=
-  mkS r (Some r) false [] true false 0 LAdd SNone DNone.
+  mkS r (Some r) false [] true false 0 0%Z LAdd SNone DNone.
 
 Definition step (st : state) (a : action) : option (state * list out) :=
   match a with
@@ -271,7 +292,7 @@ Definition step (st : state) (a : action) : option (state * list out) :=
       let r := match rid with Some r => r | None => oracle end in
       let n := next_sid st in
       let st1 := put st n (new_session r) in
-      Some (mkSt (n + 1) (next_pid st1) (addctr st1) (sessions st1) (ctls st1) (pxys st1) (proxies st1), [])
+      Some (set_next_sid st1 (n + 1), [])
   | AReq s r => match alookup s (sessions st) with Some x => step_req st s x r | None => None end
   | AEof s => match alookup s (sessions st) with Some x => step_eof st s x | None => None end
   | AStep (TLogin s) _ => match alookup s (sessions st) with Some x => step_login st s x | None => None end
